@@ -7,7 +7,7 @@ from concurrent.futures import ThreadPoolExecutor
 jobs = 5
 if len(sys.argv) > 2 and sys.argv[1] == '--jobs':
     jobs = int(sys.argv[2])
-rs = [json.loads(l) for l in open('/verif/.work/mutsweep.jsonl')]
+rs = [json.loads(l) for l in open(os.environ.get('SWEEP_IN', '/verif/.work/mutsweep.jsonl'))]
 sv = [r for r in rs if r['status'] == 'SURVIVED']
 
 
@@ -25,6 +25,10 @@ def one(ir):
         assert lines[r['line'] - 1].strip() == r['old']
         ind = lines[r['line'] - 1][:len(lines[r['line'] - 1]) - len(lines[r['line'] - 1].lstrip())]
         lines[r['line'] - 1] = ind + r['new']
+        if r['op'] == 'stmtswap':
+            nl = r['new'].split('\n')
+            lines[r['line'] - 1] = nl[0]
+            lines[r['line']] = ind + nl[1].strip()
         open(p, 'w').write('\n'.join(lines))
         env = dict(os.environ, CARGO_NET_OFFLINE='true', CARGO_TARGET_DIR='/tmp/mq2st-target-%d' % (i % jobs))
         try:
@@ -40,7 +44,7 @@ def one(ir):
         shutil.rmtree(base, ignore_errors=True)
 
 
-with open('/verif/.work/mutsweep_tests.jsonl', 'w') as fo, ThreadPoolExecutor(max_workers=jobs) as ex:
+with open(os.environ.get('SWEEP_OUT', '/verif/.work/mutsweep_tests.jsonl'), 'w') as fo, ThreadPoolExecutor(max_workers=jobs) as ex:
     for r in ex.map(one, list(enumerate(sv))):
         fo.write(json.dumps(r) + '\n'); fo.flush()
         print('%-7s %s:%d %-14s %-55s -> %-30s %s' % (r['tests'], r['file'], r['line'], r['op'], r['old'][:55], r['new'][:30], ' '.join(f.split()[1] for f in r['failed'][:2])), flush=True)
